@@ -9,6 +9,7 @@ import (
 	"strconv"
 	"strings"
 	"testing"
+	"time"
 
 	"verifsim/sched"
 )
@@ -31,6 +32,7 @@ func genPubSub(seed uint64, tier, variant string) any {
 		// commits 3ef6acd / the r2p one hands to the scheduler
 		p.Opt.RESP2, p.Opt.DisableCache = true, true
 		p.X["resp2"] = true
+		p.X["early_cancel"] = r.IntN(2) == 0
 	}
 	p.Sched = SchedSpec{CutProb: pick(r, 0.0, 0.4), MaxSteps: 8000, TickWeight: 0.3}
 	nch := 3
@@ -78,6 +80,12 @@ func genPubSub(seed uint64, tier, variant string) any {
 				c = CallSpec{Kind: "do", Cmds: []CmdSpec{{Argv: []string{"VTAG", fmt.Sprintf("t%d.c%d.k0", ti, ci), pick(r, "[sb]", "s", "{si}")}}}}
 			}
 			calls = append(calls, c)
+		}
+		if ec, _ := p.X["early_cancel"].(bool); ec && ti == 0 {
+			// the first subscription of the run is given up at once: the lazy dial of the subscription connection then
+			// meets a context that has ended, and the calls after it must dial again
+			first := CallSpec{Kind: "recv", Cmds: []CmdSpec{{Argv: []string{"SUBSCRIBE", "ch0", "u.t0.early"}}}, Cancel: true, CancelAfter: r.IntN(3)}
+			calls = append([]CallSpec{first}, calls...)
 		}
 		p.Tasks = append(p.Tasks, calls)
 	}
@@ -360,6 +368,23 @@ func execPubSub(t *testing.T, plan any, out *Outcome) {
 				break
 			}
 			out.violate("C26", "wrong-return", "task %d call %d Receive(%v) returned nil although no unsubscribe covering it was delivered (cancel step %d, deadline set %v, close step %d)", task, rec.Index, argv, rec.CancelStep, spec.TimeoutMs > 0, closeStart)
+		}
+		// an error is the call's own context error, or ErrClosing after Close - never another caller's context error,
+		// and (there are no connection faults in these plans) never anything else
+		if res.Err != "" {
+			early := spec.TimeoutMs > 0 && rec.Done && rec.EndAt.Sub(rec.StartAt) < time.Duration(spec.TimeoutMs)*time.Millisecond
+			switch {
+			case res.ErrK == "ctx-canceled" && rec.CancelStep < 0:
+				out.violate("C26", "foreign-error", "task %d call %d Receive(%v) returned %q although its context was never cancelled (deadline set %v, close step %d)", task, rec.Index, argv, res.Err, spec.TimeoutMs > 0, closeStart)
+			case res.ErrK == "ctx-deadline" && (spec.TimeoutMs == 0 || early):
+				out.violate("C26", "foreign-error", "task %d call %d Receive(%v) returned %q %v after it started, its own deadline being %d ms (0 = none)", task, rec.Index, argv, res.Err, rec.EndAt.Sub(rec.StartAt), spec.TimeoutMs)
+			case res.ErrK == "closing" && closeStart < 0:
+				out.violate("C26", "foreign-error", "task %d call %d Receive(%v) returned %q although the client was never closed", task, rec.Index, argv, res.Err)
+			case res.ErrK == "net" || res.ErrK == "other":
+				out.violate("C26", "foreign-error", "task %d call %d Receive(%v) returned %q in a plan without connection faults (close step %d)", task, rec.Index, argv, res.Err, closeStart)
+			default:
+				out.judged("receive-error-is-its-own")
+			}
 		}
 		if endedByUnsub && res.Err == "" {
 			out.probe("receive-ended-by-unsubscribe")
